@@ -13,6 +13,8 @@ PROPS = ["NoRecycle", "Level2Sound", "DeleteExact", "EmptyIdentity", "UpdateMono
 MC_CFG = ("CONSTANT Depth = %d\nCONSTANT Gen = FALSE\nCONSTANT WordNA = {}\nCONSTANT Deviations = {%s}\nSPECIFICATION Spec\nVIEW view\nCHECK_DEADLOCK FALSE\n"
           "CONSTRAINT Bound\nINVARIANT InvKeys\nINVARIANT InvCountersCover\n")
 GEN_CFG = "CONSTANT Depth = %d\nCONSTANT Gen = TRUE\nCONSTANT WordNA = {}\nCONSTANT Deviations = {}\nSPECIFICATION Spec\nCHECK_DEADLOCK FALSE\nCONSTRAINT Bound\nCONSTRAINT Emit\n"
+GTF_DIALECT = {"leading semicolon": False, "trailing semicolon": True, "quoted GFF2 values": True, "field separator": "; ", "keyval separator": " ",
+               "multival separator": ",", "fmt": "gtf", "repeated keys": False, "order": ["ID", "Name", "gene_id", "transcript_id"]}
 KNOWN_TEXT = {"F4_ReplaceKeepsStaleLinks": "update(merge_strategy='replace') keeps the level-1 relations of the replaced version"}
 
 
@@ -45,7 +47,10 @@ def execute(hist, path):
                     for p in (path, path + ".bak"):
                         if os.path.exists(p):
                             os.unlink(p)
-                    db = gffutils.create_db([G.real_feature(f) for f in step["feats"]], path, merge_strategy="error")
+                    kw = {}
+                    if step.get("gtf"):
+                        kw["dialect"] = dict(GTF_DIALECT)
+                    db = gffutils.create_db([G.real_feature(f) for f in step["feats"]], path, merge_strategy="error", **kw)
                 elif op == "update":
                     db.update([G.real_feature(f) for f in step["feats"]], make_backup=step["backup"], merge_strategy=step["strategy"])
                 elif op == "updatefail":
@@ -130,7 +135,11 @@ def to_model_hist(hist):
             steps.append({"op": "addrel", "p": s["p"], "c": s["c"], "l": s["l"], "rewrite": s["rewrite"]})
         else:
             steps.append({"op": "reopen"})
-    return {"init": {"feats": hist[0]["feats"], "cfg": G.DEFAULT_CFG, "dirs": []}, "steps": steps, "rel": False}
+    dflt = dict(G.DEFAULT_CFG, idspec={"kind": "default"})
+    for st in steps:
+        if "cfg" in st:
+            st["cfg"] = dict(st["cfg"], idspec={"kind": "default"})
+    return {"init": {"feats": hist[0]["feats"], "cfg": dflt, "dirs": [], "gtf": bool(hist[0].get("gtf"))}, "steps": steps, "rel": False}
 
 
 def describe(hist):
@@ -189,7 +198,7 @@ def run(ctx):
     thorough = ctx.tier == "thorough"
     depth = 4 if thorough else 3
     ctx.rule = ("TLC explores every history of <= %d calls over {update(5 batches x 5 strategies x backup), update(nothing), update with a source failing at item 0/1, "
-                "delete(each stored id), add_relation(8 argument tuples, with/without child rewrite), reopen} from 3 initial files (invariants InvKeys, InvCountersCover; "
+                "delete(each stored id), add_relation(8 argument tuples, with/without child rewrite), reopen} from 3 GFF3 initial files and one GTF database (derived transcript/gene, re-derivation on update) (invariants InvKeys, InvCountersCover; "
                 "action properties %s). Behaviours of length 2 (all, sampled in quick) and seeded -simulate behaviours of length 7 are executed on a real file database; after "
                 "EVERY call the file and its .bak are projected through fresh connections and compared with the specification's snapshots. Non-trivial: >= 2 writer calls "
                 "of different kinds, a reopen between calls, or a failing source; distinct by the whole history.") % (depth, ", ".join(PROPS))
